@@ -42,7 +42,7 @@ tvars == <<scn, pmain, pbak, ino, wlock, pc, conn, snap, saw, res, chk, raced, s
 
 Events == Traces[tid].events
 
-TInit == /\ W!Init /\ tid \in 1..Len(Traces) /\ scn = ScnOf(tid) /\ used = {} /\ bad = <<>> /\ obs = <<>>
+TInit == /\ W!Init /\ tid \in 1..Len(Traces) /\ scn = ScnOf(tid) /\ used = {} /\ bad = <<>> /\ obs = {}
 
 ClsOf(lab) ==
   CASE lab = "exists" -> "exists" [] lab = "unlink" -> "unlink" [] lab = "rename" -> "rename"
@@ -90,11 +90,13 @@ YN(b) == IF b THEN "y" ELSE "n"
 JmObs(i) ==
   LET e == Events[i]
       jmo == IF e.cls = "script" /\ e.jm # "" /\ conn'[e.p] # 0 /\ e.jm # ino'[conn'[e.p]].jm
-             THEN <<[i |-> i, p |-> e.p, k |-> "jm", seen |-> e.jm, model |-> ino'[conn'[e.p]].jm]>> ELSE <<>>
+             THEN {[i |-> i, p |-> e.p, k |-> "jm", seen |-> e.jm, model |-> ino'[conn'[e.p]].jm]} ELSE {}
       mtx == IF e.cls = "close" THEN YN(txn[e.p] # "none") ELSE YN(txn'[e.p] # "none")
       txo == IF e.tx # "" /\ e.tx # mtx
-             THEN <<[i |-> i, p |-> e.p, k |-> IF e.cls = "close" THEN "idle" ELSE "tx", seen |-> e.tx, model |-> mtx]>> ELSE <<>>
-  IN obs' = obs \o jmo \o txo
+             THEN {[i |-> i, p |-> e.p, k |-> IF e.cls = "close" THEN "idle" ELSE "tx", seen |-> e.tx, model |-> mtx]} ELSE {}
+  \* a SET (the event index is part of every entry): events whose intervals overlap are consumed in every compatible
+  \* order, and the states reached must not differ by the order in which differences were noted
+  IN obs' = obs \cup jmo \cup txo
 
 ConsumeClean(i) == Ready(i) /\ Clean(i) /\ W!Step(Events[i].p) /\ JmObs(i) /\ bad' = bad /\ used' = used \cup {i}
 
